@@ -10,6 +10,7 @@ import (
 	"net/http"
 	"net/http/httptest"
 	"net/url"
+	"regexp"
 	"slices"
 	"strconv"
 	"strings"
@@ -185,6 +186,8 @@ func (f *fakeCF) stateText() string {
 	return semi(zs)
 }
 
+var echValueRe = regexp.MustCompile(`(ech="?)[^" ]*("?)`)
+
 func randParams(r *rand.Rand, withEch int) string {
 	toks := []string{`alpn="h3,h2"`, `ipv4hint="192.0.2.1"`, `port=8443`, `no-default-alpn`, `alpn=h2`, `ipv6hint="2001:db8::1"`, `mandatory=alpn`, `key65400="x=y"`}
 	r.Shuffle(len(toks), func(i, j int) { toks[i], toks[j] = toks[j], toks[i] })
@@ -225,6 +228,7 @@ func genC20(env *core.Env, emit func(core.Case)) {
 			// a large zone: the listing has more pages than anyone would guess as a limit
 			nrec = []int{1001, 1005, 2003, 1290}[(i/50)%4]
 		}
+		lists := [][]byte{gen.RandBytes(r, 20), gen.RandBytes(r, 33)}
 		z1 := &cfZoneT{ID: "zid1", Name: "example.org"}
 		for k := 0; k < nrec; k++ {
 			ne := []int{0, 0, 1, 1, 2}[r.IntN(5)]
@@ -233,6 +237,11 @@ func genC20(env *core.Env, emit func(core.Case)) {
 				name = fmt.Sprintf("h%d.example.org", k-1) // two records with one name
 			}
 			val := randParams(r, ne)
+			if ne == 1 && k%3 == 1 {
+				// the record already carries one of the lists that will be published - written by someone else:
+				// anywhere among the parameters, quoted or not
+				val = echValueRe.ReplaceAllString(val, "${1}"+base64.StdEncoding.EncodeToString(lists[k%2])+"${2}")
+			}
 			if r.IntN(6) == 0 {
 				val = "" // a record without any parameter yet
 			}
@@ -251,7 +260,6 @@ func genC20(env *core.Env, emit func(core.Case)) {
 		var lastTargets []publish.Target
 		sigParts := []string{fmt.Sprintf("n%d", nrec)}
 		ncalls := 1 + r.IntN(3)
-		lists := [][]byte{gen.RandBytes(r, 20), gen.RandBytes(r, 33)}
 		for call := 0; call < ncalls; call++ {
 			// targets
 			var tg []publish.Target
